@@ -172,7 +172,11 @@ func (v *Vue) evaluate(ctx VueContext, nodes []*html.Node, depth int) ([]*html.N
 				return nil, err
 			}
 
-			if !hasVHtml && !hasVText {
+			// The children of a v-html / v-text element are its fallback: when the value did
+			// not resolve (no content carrier was stored) they are evaluated like any other
+			// children, not written as they stand in the template
+			contentReplaced := helpers.HasAttr(newNode, "data-v-html-content") || helpers.HasAttr(newNode, "data-v-text-content")
+			if !contentReplaced {
 				ctx.PushTag(node.Data)
 				newChildren, err := v.evaluateChildren(ctx, node, depth+1)
 				ctx.PopTag()
